@@ -55,11 +55,16 @@ def removeIdx (m : Multi) (idx : Nat) : Multi :=
   if m.free.contains idx then m else
   { m with members := m.members.set idx ({} : Member), free := m.free ++ [idx], ordering := m.ordering.filter (· ≠ idx) }
 
+/-- `MultiState::blank_lines_on_top` (repair of F35): with bottom alignment a frame that has shrunk starts
+with blank rows; they are above the first bar and stay on the screen with it when it is reaped -/
+def blankOnTop (m : Multi) : Nat :=
+  if m.target.fx.fbottom ∧ m.alignment = .bottom then m.target.llc - (m.ordering.map m.memberRows).sum else 0
+
 def markZombie (m : Multi) (idx : Nat) : Multi :=
   if m.ordering.head? ≠ some idx ∨ (m.target.fx.fstale ∧ m.stale) then
     { m with members := m.members.modify idx (fun mem => { mem with zombie := true }) }
   else
-    let lc := m.memberRows idx
+    let lc := m.memberRows idx + m.blankOnTop
     let kept := if m.target.fx.fkept then min m.target.llc lc else lc
     ({ m with z := m.z + kept, target := { m.target with llc := m.target.llc - lc } }).removeIdx idx
 
@@ -96,6 +101,7 @@ def drawFixed (m : Multi) (force : Bool) (extra : Option (List Line)) (now : Nat
   let ds : DrawState := { m.target.ds with lines := lines, alignment := m.alignment }
   let (ops, llc) := drawToTerm m.target.fx ds m.target.W m.target.H m.target.llc
   let m := { m with target := { m.target with ds := ds.after m.target.fx m.target.W m.target.H m.target.llc, llc := llc }, orphan := [] }
+  let adjust := adjust + (if reap = [] then 0 else m.blankOnTop)
   let m := reap.foldl removeIdx m
   let kept := if m.target.fx.fkept then min m.target.llc adjust else adjust
   let m := if !hasText then { m with z := m.z + kept, target := { m.target with llc := m.target.llc - adjust } } else m
